@@ -58,7 +58,7 @@ def _selftest(C, S):
 
 def check_wigner(repo, chk, tier):
     chk.rule("E6-wigner", "small_d_matrix(theta, 2j) equals the exact Wigner d^j_{m m'}(theta) entry by entry (table generator constant-folded, polynomial identity in cos/sin of theta/2), and d d^T = 1, for 2j = 0..%d" % (4 if tier == "quick" else 8))
-    chk.rule("E6-Dconj", "D_matrix_conj(alpha, beta, gamma, 2j)[a][b] == exp(i m_a alpha) d^j_{ab}(beta) exp(i m_b gamma) for 2j = 0..3")
+    chk.rule("E6-Dconj", "D_matrix_conj(alpha, beta, gamma, 2j)[a][b] == exp(i m_a alpha) d^j_{ab}(beta) exp(i m_b gamma) for 2j = 0..%d" % (4 if tier == "quick" else 6))
     TH, AL, GA = sp.symbols("TH AL GA", real=True)
     # sin / cos of theta / 2 as free REAL quantities: the property quantifies over all angles (a negative beta is the
     # inverse rotation), so neither is assumed positive
@@ -134,7 +134,7 @@ def check_wigner(repo, chk, tier):
             if not ok:
                 chk.violation("E6-wigner", sd.key, "legendre:J=%d" % J, "d^%d_00 = %s is not the Legendre polynomial P_%d(cos theta)" % (J, got, J), file="tf_pwa/dfun.py", line=sd.lineno)
     # D* = exp(i m1 alpha) d exp(i m2 gamma)
-    for j2 in range(0, 4):
+    for j2 in range(0, 5 if tier == "quick" else 7):
         tr = Translator(repo, hooks=hooks, max_depth=6)
         try:
             Dm = tr.call_fn(dc, [AL, TH, GA, sp.Integer(j2)])
